@@ -109,7 +109,7 @@ def histRun : State → List String → List String
 
 def runHistory (cfg : List String) (ops : List String) : List String :=
   match parseGroups cfg with
-  | some (.ok gs) => histRun { file := gs, active := gs.map fun g => { cfg := g, procs := freshProcs g } } ops
+  | some (.ok gs) => histRun { file := gs, active := gs.map fun g => { cfg := resolveCfg g, procs := freshProcs g } } ops
   | _ => ops.map fun _ => "bad-config"
 
 end Sv.Reread
